@@ -184,13 +184,11 @@ def join_component_view(component, view):
     """
     if view is None:
         return component
-    result = [component]
-    try:
-        result.extend(view)
-    except TypeError:  # view is a scalar
-        result = [component, view]
-
-    return tuple(result)
+    if isinstance(view, (tuple, list)):
+        return (component,) + tuple(view)
+    # a scalar, a slice, or a single array (boolean mask or index array), which
+    # has to stay one item of the key rather than being unpacked row by row
+    return (component, view)
 
 
 def facet_subsets(data_collection, cid, lo=None, hi=None, steps=5,
